@@ -52,6 +52,7 @@ const (
 var siteNames = []string{"start", "go", "mu.Lock", "mu.Unlock", "rw.RLock", "rw.RUnlock", "rw.Lock", "rw.Unlock",
 	"wg.Add", "wg.Wait", "atomic", "once", "cond", "map", "select", "blockwake", "sleep", "join"}
 
+//go:norace
 func (s Site) String() string {
 	if int(s) < len(siteNames) {
 		return siteNames[s]
@@ -69,6 +70,7 @@ const (
 	stDone
 )
 
+//go:norace
 func (s state) String() string {
 	return [...]string{"ready", "running", "blocked", "external", "done"}[s]
 }
@@ -86,9 +88,12 @@ type Task struct {
 	Local     any // harness-owned per-task slot
 }
 
+//go:norace
 func (t *Task) String() string { return fmt.Sprintf("T%d(%s)", t.ID, t.Name) }
 
 // Done reports whether the task has finished.
+//
+//go:norace
 func (t *Task) Done() bool {
 	t.sim.mu.Lock()
 	defer t.sim.mu.Unlock()
@@ -136,9 +141,27 @@ type Report struct {
 	SyncMisuse     []string
 }
 
+// quietMutex is a mutex whose lock/unlock are invisible to the race detector:
+// the simulator's own bookkeeping must not add happens-before edges between tasks.
+type quietMutex struct{ mu sync.Mutex }
+
+//go:norace
+func (q *quietMutex) Lock() {
+	raceDisable()
+	q.mu.Lock()
+	raceEnable()
+}
+
+//go:norace
+func (q *quietMutex) Unlock() {
+	raceDisable()
+	q.mu.Unlock()
+	raceEnable()
+}
+
 // Sim is one simulation.
 type Sim struct {
-	mu      sync.Mutex
+	mu      quietMutex
 	cfg     Config
 	tasks   []*Task
 	current *Task
@@ -157,10 +180,14 @@ type Sim struct {
 var cur atomic.Pointer[Sim]
 
 // Active returns the running simulation, or nil.
+//
+//go:norace
 func Active() *Sim { return cur.Load() }
 
 // Dying reports whether the active simulation is being torn down (deferred
 // calls of aborted tasks are running); harness callbacks must ignore such calls.
+//
+//go:norace
 func Dying() bool {
 	s := cur.Load()
 	return s != nil && s.dying.Load()
@@ -169,6 +196,8 @@ func Dying() bool {
 // Run executes main as task 0 under the scheduler and returns when every task
 // has finished, or the run was aborted (deadlock, budget, harness error).
 // It must be called from the root goroutine of a synctest bubble.
+//
+//go:norace
 func Run(cfg Config, main func()) *Report {
 	if cfg.MaxSteps == 0 {
 		cfg.MaxSteps = 200000
@@ -191,6 +220,7 @@ func Run(cfg Config, main func()) *Report {
 	return &s.rep
 }
 
+//go:norace
 func (s *Sim) spawn(name string, inc int, f func()) *Task {
 	t := &Task{ID: len(s.tasks), Name: name, Inc: inc, st: stReady, wake: make(chan struct{}), sim: s, site: SiteStart}
 	s.tasks = append(s.tasks, t)
@@ -198,8 +228,11 @@ func (s *Sim) spawn(name string, inc int, f func()) *Task {
 	return t
 }
 
+//go:norace
 func (s *Sim) taskMain(t *Task, f func()) {
+	raceDisable()
 	<-t.wake
+	raceEnable()
 	if s.dying.Load() {
 		s.finish(t)
 		return
@@ -215,7 +248,9 @@ func (s *Sim) taskMain(t *Task, f func()) {
 	f()
 }
 
+//go:norace
 func (s *Sim) finish(t *Task) {
+	raceRelease(t)
 	s.mu.Lock()
 	t.st = stDone
 	for _, o := range s.tasks {
@@ -226,7 +261,10 @@ func (s *Sim) finish(t *Task) {
 	s.mu.Unlock()
 }
 
+//go:norace
 func (s *Sim) loop() {
+	raceDisable()
+	defer raceEnable()
 	for {
 		synctest.Wait()
 		s.mu.Lock()
@@ -296,6 +334,8 @@ func (s *Sim) loop() {
 // pickLocked chooses the next task. Candidates are ordered: the task that ran
 // last (if ready) first, then the others by id; a tape value of 0 therefore
 // means "no context switch".
+//
+//go:norace
 func (s *Sim) pickLocked(ready []*Task) *Task {
 	t := ready[0]
 	if len(ready) > 1 {
@@ -324,6 +364,7 @@ func (s *Sim) pickLocked(ready []*Task) *Task {
 	return t
 }
 
+//go:norace
 func (s *Sim) noteStepLocked(t *Task) {
 	s.rep.Steps++
 	e := uint32(t.ID)<<16 | uint32(t.site)
@@ -333,6 +374,7 @@ func (s *Sim) noteStepLocked(t *Task) {
 	}
 }
 
+//go:norace
 func (s *Sim) release(t *Task) {
 	t.st = stRunning
 	t.waitingOn = nil
@@ -344,13 +386,18 @@ func (s *Sim) release(t *Task) {
 
 // park blocks the calling task until the scheduler releases it again.
 // The caller has already set t.st under s.mu and released s.mu.
+//
+//go:norace
 func (s *Sim) park(t *Task) {
+	raceDisable()
 	<-t.wake
+	raceEnable()
 	if s.dying.Load() {
 		runtime.Goexit()
 	}
 }
 
+//go:norace
 func (s *Sim) teardown() {
 	s.dying.Store(true)
 	for {
@@ -373,6 +420,7 @@ func (s *Sim) teardown() {
 	}
 }
 
+//go:norace
 func (s *Sim) waitGraph() string {
 	var b strings.Builder
 	for _, t := range s.tasks {
@@ -391,6 +439,7 @@ func (s *Sim) waitGraph() string {
 // Describer lets primitives describe themselves (and their owner) in deadlock reports.
 type Describer interface{ SimDescribe() string }
 
+//go:norace
 func describe(x any) string {
 	if d, ok := x.(Describer); ok {
 		return d.SimDescribe()
@@ -401,6 +450,7 @@ func describe(x any) string {
 	return fmt.Sprintf("%T@%p", x, x)
 }
 
+//go:norace
 func allStacks() string {
 	buf := make([]byte, 1<<20)
 	n := runtime.Stack(buf, true)
@@ -412,8 +462,11 @@ func allStacks() string {
 
 // Go starts f as a new task of the caller's incarnation (or as a plain goroutine
 // when no simulation is active). The spawning task then reaches a decision point.
+//
+//go:norace
 func Go(f func()) { GoNamed("go", f) }
 
+//go:norace
 func GoNamed(name string, f func()) *Task {
 	s := cur.Load()
 	if s == nil {
@@ -436,6 +489,8 @@ func GoNamed(name string, f func()) *Task {
 
 // Spawn is GoNamed with an explicit incarnation and without a decision point
 // (used by the orchestrating harness task to start a process incarnation).
+//
+//go:norace
 func Spawn(name string, inc int, f func()) *Task {
 	s := cur.Load()
 	if s == nil {
@@ -448,12 +503,15 @@ func Spawn(name string, inc int, f func()) *Task {
 }
 
 // Yield is a decision point.
+//
+//go:norace
 func Yield(site Site) {
 	if s := cur.Load(); s != nil {
 		s.yield(site)
 	}
 }
 
+//go:norace
 func (s *Sim) yield(site Site) {
 	if s.dying.Load() {
 		return
@@ -484,6 +542,8 @@ func (s *Sim) yield(site Site) {
 }
 
 // BlockOn parks the running task until some task calls WakeAll(key).
+//
+//go:norace
 func BlockOn(key any, site Site) {
 	s := cur.Load()
 	if s == nil || s.dying.Load() {
@@ -503,6 +563,8 @@ func BlockOn(key any, site Site) {
 }
 
 // WakeAll makes every task blocked on key ready again (they re-check their condition).
+//
+//go:norace
 func WakeAll(key any) {
 	s := cur.Load()
 	if s == nil {
@@ -519,6 +581,8 @@ func WakeAll(key any) {
 
 // WakeOne makes the lowest-id... no: the first task (in blocking order is not tracked) blocked on key ready.
 // It is used by Cond.Signal with an explicit task.
+//
+//go:norace
 func WakeTask(t *Task) {
 	s := cur.Load()
 	if s == nil {
@@ -532,6 +596,8 @@ func WakeTask(t *Task) {
 }
 
 // Join blocks until t has finished.
+//
+//go:norace
 func Join(ts ...*Task) {
 	s := cur.Load()
 	if s == nil {
@@ -546,6 +612,9 @@ func Join(ts ...*Task) {
 			done := t.st == stDone
 			s.mu.Unlock()
 			if done || s.dying.Load() {
+				if done {
+					raceAcquire(t)
+				}
 				break
 			}
 			BlockOn(t, SiteJoin)
@@ -558,6 +627,8 @@ type Tok struct{ t *Task }
 
 // BeforeBlock announces that the running task is about to perform a real
 // (channel / timer / select) operation that may block.
+//
+//go:norace
 func BeforeBlock() Tok {
 	s := cur.Load()
 	if s == nil || s.dying.Load() {
@@ -572,6 +643,8 @@ func BeforeBlock() Tok {
 }
 
 // AfterBlock must be the first thing executed after the operation returned.
+//
+//go:norace
 func AfterBlock(k Tok) {
 	if k.t == nil {
 		return
@@ -584,14 +657,18 @@ func AfterBlock(k Tok) {
 	k.t.st = stReady
 	k.t.site = SiteBlockWake
 	s.mu.Unlock()
+	raceDisable()
 	select {
 	case s.wakeCh <- struct{}{}:
 	default:
 	}
+	raceEnable()
 	s.park(k.t)
 }
 
 // Sleep sleeps in simulated time.
+//
+//go:norace
 func Sleep(d time.Duration) {
 	if cur.Load() == nil {
 		time.Sleep(d)
@@ -606,6 +683,8 @@ func Sleep(d time.Duration) {
 // whose cases bind no value: it returns the index of the case that fired.
 // Ready cases are polled in an order taken from the choice tape, so both outcomes
 // of a both-ready select are reachable and replayable.
+//
+//go:norace
 func Select(chans ...any) int {
 	cases := make([]reflect.SelectCase, len(chans), len(chans)+1)
 	for i, c := range chans {
@@ -646,6 +725,8 @@ func Select(chans ...any) int {
 }
 
 // Stamp returns a fresh, strictly increasing sequence number for history records.
+//
+//go:norace
 func Stamp() int64 {
 	s := cur.Load()
 	if s == nil {
@@ -659,6 +740,8 @@ func Stamp() int64 {
 }
 
 // Current returns the running task (nil outside a simulation).
+//
+//go:norace
 func Current() *Task {
 	s := cur.Load()
 	if s == nil {
@@ -670,6 +753,8 @@ func Current() *Task {
 }
 
 // SetIncarnation moves the running task to incarnation inc.
+//
+//go:norace
 func SetIncarnation(inc int) {
 	if t := Current(); t != nil {
 		t.sim.mu.Lock()
@@ -679,6 +764,8 @@ func SetIncarnation(inc int) {
 }
 
 // Dead reports whether the running task belongs to a killed incarnation.
+//
+//go:norace
 func Dead() bool {
 	s := cur.Load()
 	if s == nil {
@@ -690,6 +777,8 @@ func Dead() bool {
 }
 
 // IncDead reports whether incarnation inc has been killed.
+//
+//go:norace
 func IncDead(inc int) bool {
 	s := cur.Load()
 	if s == nil {
@@ -701,6 +790,8 @@ func IncDead(inc int) bool {
 }
 
 // KillNow kills incarnation inc immediately.
+//
+//go:norace
 func KillNow(inc int) {
 	if s := cur.Load(); s != nil {
 		s.mu.Lock()
@@ -710,6 +801,8 @@ func KillNow(inc int) {
 }
 
 // Steps returns the number of scheduler steps so far.
+//
+//go:norace
 func Steps() int {
 	s := cur.Load()
 	if s == nil {
@@ -722,6 +815,8 @@ func Steps() int {
 
 // Misuse records a misuse of a synchronisation primitive that real Go would
 // turn into a fatal error (unlock of an unlocked mutex, negative WaitGroup...).
+//
+//go:norace
 func Misuse(msg string) {
 	if s := cur.Load(); s != nil {
 		s.mu.Lock()
